@@ -23,6 +23,60 @@ func init() {
 	vrt.Register("h_step.Reopen", Reopen)
 	vrt.Register("h_step.DeleteMulti", DeleteMulti)
 	vrt.Register("h_step.Migrate", Migrate)
+	vrt.Register("h_step.Reuse", Reuse)
+}
+
+// Reuse: offsets are never assigned twice — delete the newest messages (or
+// everything), optionally close and reopen, publish again (C02).
+func Reuse() {
+	p := setup()
+	lg := open(p)
+	live := p.l.Live()
+	vrt.Assume(len(live) > 0)
+	// delete the last k live messages (k = all: the whole log is emptied)
+	k := 1 + vrt.Choose("tail", len(live))
+	set := map[int64]struct{}{}
+	for _, r := range live[len(live)-k:] {
+		set[r.Off] = struct{}{}
+	}
+	_, _, err := klevdb.DeleteMulti(context.Background(), lg, set, func(context.Context) error { return nil })
+	vrt.Assert(err == nil, "DeleteMulti of the newest messages succeeds")
+	want := append([]kit.Rec{}, live[:len(live)-k]...)
+	if k == len(live) {
+		vrt.Reach("all-deleted")
+	} else {
+		vrt.Reach("tail-deleted")
+	}
+	n, err := lg.NextOffset()
+	vrt.Assert(err == nil && n == p.l.Next, "NextOffset does not move when the newest messages are deleted")
+	if vrt.Choose("reopen", 2) == 1 {
+		vrt.Assert(lg.Close() == nil, "Close")
+		d := kit.DecodeDir(p.l.Dir, p.l.Times, p.l.Keys, p.monotone, "after deleting the tail")
+		kit.SameLog(d, want, p.l.Next, "after deleting the tail")
+		p.opts.Check = vrt.Choose("check", 2) == 1
+		p.opts.Recover = vrt.Choose("recover", 2) == 1
+		lg = open(p)
+		vrt.Reach("empty-head-reopened")
+		n, err = lg.NextOffset()
+		vrt.Assert(err == nil && n == p.l.Next, "NextOffset survives close and reopen of a log whose newest messages were deleted")
+	}
+	us := vrt.Int64("pus")
+	if p.monotone {
+		// times never decrease in publish order (the deleted messages were published before)
+		vrt.Assume(us >= live[len(live)-1].Us)
+	}
+	if p.monotone {
+		vrt.Assume(us >= 0)
+	}
+	msgs := []klevdb.Message{{Time: time.UnixMicro(us), Key: vrt.Bytes("pkey", 1), Value: vrt.Bytes("pval", 1)}}
+	vrt.Assume(!msgs[0].Time.IsZero())
+	next, err := lg.Publish(msgs)
+	vrt.Assert(err == nil, "Publish after deleting the tail")
+	vrt.Assert(msgs[0].Offset == p.l.Next, "a deleted offset is never assigned again")
+	vrt.Assert(next == p.l.Next+1, "Publish returns previous NextOffset + 1")
+	want = append(want, kit.Rec{Off: p.l.Next, Us: us, Key: msgs[0].Key, Val: msgs[0].Value})
+	kit.Observe(lg, want, p.l.Next+1, "after republish")
+	closeAndDecode(p, lg, want, p.l.Next+1, "after republish+Close")
 }
 
 type pre struct {
